@@ -1,8 +1,12 @@
 package props
 
 import (
+	"reflect"
+	"sort"
+
 	"encoding/json"
 	"fmt"
+	"github.com/cosmos/gogoproto/proto"
 	"os"
 	"path/filepath"
 	"strconv"
@@ -17,6 +21,7 @@ import (
 
 func TestMain(m *testing.M) {
 	sim.Init()
+	govBech32 = sim.GovAddr.String()
 	loadKnown()
 	code := m.Run()
 	ev.Flush()
@@ -191,3 +196,9 @@ func TestReplay(t *testing.T) {
 	}
 	fmt.Printf("REPLAY-OK property=%s\n", rf.Property)
 }
+
+func reflectNew(m proto.Message) proto.Message {
+	return reflect.New(reflect.TypeOf(m).Elem()).Interface().(proto.Message)
+}
+
+func sortStrings(s []string) { sort.Strings(s) }
